@@ -159,6 +159,14 @@ def replay(ur, scratch, seed):
     r = C.run_cmd([exe, "search", str(seed), "3000"], 900, env=N.run_env())
     return dict(found=(r["rc"] == 1), driver="native/c16_native.cpp", args=["search", seed, 3000], link_ompl=True, unit_cpps=C16_CPPS, output=r["out"][-2500:])
 
+TBF = "src/ompl/base/spaces/constraint/src/TangentBundleStateSpace.cpp"
+TB_RULES = [(r"auto astate = state->as<StateType>\(\);", "", 0), (r"auto &&svc = si_->getStateValidityChecker\(\);", "", 0), (r"Eigen::VectorXd u\(k_\);", "", 0),
+            (r"AtlasChart \*chart = getChart\(astate, true\);", "int chart = GET_CHART();", 0), (r"chart->psiInverse\(\*astate, u\);", "PSI_INVERSE();", 0), (r"chart->psi\(u, \*astate\)", "PSI()", 0), (r"svc->isValid\(state\)", "IS_VALID()", 0)]
+UNITS.append(dict(name="c16_tangentbundle_project", template="C16/tb_project.c", mode="plain", entry="h_tb_project", flags=["--bounds-check", "--pointer-check", "--unsigned-overflow-check"], level="proof", backend="minisat", timeout=300,
+                  functions=["ompl::base::TangentBundleStateSpace::project"],
+                  sources=[dict(name="tb_project", file=TBF, sig=r"bool ompl::base::TangentBundleStateSpace::project\(State \*state\) const", rules=TB_RULES, loops={})],
+                  canaries=[dict(name="convergence_verdict_dropped", where="body:tb_project", rx=r"if \(PSI\(\)\s*&& IS_VALID\(\)\)\s*return true;\s*return false;", repl="PSI(); return IS_VALID();")]))
+
 ASSUMPTIONS = ["Constraint: function(), jacobian(), the SVD solve and Eigen's squaredNorm/allFinite are arbitrary (stubs); only which x they were computed for is tracked (ghost versions)",
                "a finite squared norm implies that every residual entry is finite (links project()'s success to isSatisfied())"]
 TRUSTED = ["extraction rewrite tables of units/C16.py", "stub contracts in units/C16/*.c", "CBMC 6.11 DFCC + minisat"]
